@@ -7,7 +7,7 @@ import os
 from . import core
 
 SPEC_DIR = os.path.join(core.SPEC, "lin")
-FAMILIES = "ABCDE"
+FAMILIES = "ABCDEF"
 
 
 def src_hash(ev):
